@@ -595,13 +595,14 @@ def set_notebook_diff_targets(sources=True, outputs=True, attachments=True,
 
     # Keys of a cell that are ignored as a whole. These must also be filtered
     # from the cell's own diff: a key that only one of the cells has
-    # (attachments) shows up there as add/remove, and an atomic value (id)
+    # (attachments, outputs) shows up there as add/remove, and an atomic value (id)
     # as replace, without the differ of the subpath being consulted.
     ignored_cell_keys = tuple(
         key for key, shown in (
             ('execution_count', details),
             ('id', identifier),
             ('attachments', attachments),
+            ('outputs', outputs),
         ) if not shown)
 
     config = {
